@@ -1,18 +1,54 @@
 use std::io::{self, BufRead, Write};
 
-/// Run `f` on every non-empty line of stdin, print its result line.
-pub fn for_each_case<F: FnMut(&str) -> String>(mut f: F) {
+/// Run `f` on every non-empty line of stdin, print its result line.  Each case
+/// runs in its own thread under a watchdog (GVH_CASE_TIMEOUT_MS, default 20 s):
+/// a hang is an outcome — "HANG" is printed for that case and the process exits
+/// with status 3 (the orchestrator restarts it on the remaining cases).
+pub fn for_each_case<F: FnMut(&str) -> String + Send + 'static>(f: F) {
+    let timeout_ms: u64 = std::env::var("GVH_CASE_TIMEOUT_MS")
+        .ok()
+        .and_then(|v| v.parse().ok())
+        .unwrap_or(20_000);
     let stdin = io::stdin();
     let stdout = io::stdout();
     let mut out = io::BufWriter::new(stdout.lock());
+    let (tx_case, rx_case) = std::sync::mpsc::channel::<String>();
+    let (tx_res, rx_res) = std::sync::mpsc::channel::<String>();
+    std::thread::Builder::new()
+        .stack_size(256 * 1024 * 1024)
+        .spawn(move || {
+            let mut f = f;
+            while let Ok(line) = rx_case.recv() {
+                let r = f(&line);
+                if tx_res.send(r).is_err() {
+                    break;
+                }
+            }
+        })
+        .unwrap();
     for line in stdin.lock().lines() {
         let line = line.expect("stdin");
-        let line = line.trim_end();
+        let line = line.trim_end().to_string();
         if line.is_empty() {
             continue;
         }
-        let r = f(line);
-        writeln!(out, "{}", r).unwrap();
+        tx_case.send(line).unwrap();
+        match rx_res.recv_timeout(std::time::Duration::from_millis(timeout_ms)) {
+            Ok(r) => {
+                writeln!(out, "{}", r).unwrap();
+                out.flush().unwrap();
+            }
+            Err(std::sync::mpsc::RecvTimeoutError::Timeout) => {
+                writeln!(out, "HANG").unwrap();
+                out.flush().unwrap();
+                std::process::exit(3);
+            }
+            Err(_) => {
+                writeln!(out, "CRASH worker thread died").unwrap();
+                out.flush().unwrap();
+                std::process::exit(4);
+            }
+        }
     }
     out.flush().unwrap();
 }
